@@ -17,7 +17,7 @@ From Coq Require Import List NArith ZArith Bool.
 From SWH.lib Require Import Bytes.
 From SWH Require Import Generated.
 From SWH.model Require Import Codec.
-From SWH.proofs Require Import CodecProofs CodecRoundtrip CodecLegacy CodecConstruct.
+From SWH.proofs Require Import CodecProofs CodecRoundtrip CodecLegacy CodecConstruct CodecTables.
 From SWH.proofs Require CodecExamples.
 Import ListNotations.
 
@@ -281,3 +281,43 @@ Print Assumptions C12_roundtrip_constructed.
 Theorem C12_idf_invariant_satisfiable : idf_migration_invariant idf_c.
 Proof. exact idf_c_invariant. Qed.
 Print Assumptions C12_idf_invariant_satisfiable.
+
+(* ---------------------------------------------------------------- table side conditions (third round) *)
+(* The tables hard-coded in model/Codec.v equal the tables regenerated from
+   /repo on every run.  The model does not mention the generated tables; a
+   source change makes these theorems fail, not the model's build. *)
+
+(* Per class: field names and order, type codes (str(f.type) normalised),
+   default values (wire notation) and elided-when-None flags. *)
+Theorem C12_schema_types_match_generated : forall c, map schema_row (schema c) = generated_schema c.
+Proof. exact schema_types_match_generated. Qed.
+Print Assumptions C12_schema_types_match_generated.
+
+(* The 18 classes of the model, by name and in order, are the generated ones. *)
+Theorem C12_model_schemas_match_generated :
+  map (fun c => (class_name c, map schema_row (schema c))) all_classes = MODEL_SCHEMAS.
+Proof. exact model_schemas_match_generated. Qed.
+Print Assumptions C12_model_schemas_match_generated.
+
+(* A type code determines the field type: ty_of_string inverts string_of_ty on
+   every type used in a schema, so equal codes mean equal modelled types. *)
+Theorem C12_type_codes_injective : forall t, In t schema_types -> ty_of_string (string_of_ty t) = Some t.
+Proof. exact ty_of_string_of_ty. Qed.
+Print Assumptions C12_type_codes_injective.
+
+(* Which fields carry generic_type_validator. *)
+Theorem C12_generic_validated_match_generated :
+  forall c, map fname (filter fgeneric (schema c)) = generated_generic c.
+Proof. exact generic_validated_match_generated. Qed.
+Print Assumptions C12_generic_validated_match_generated.
+
+(* Enum members (by value, declaration order) and the literal lists of the
+   in_ validators used by the modelled custom validators. *)
+Theorem C12_enums_match_generated :
+  members ESnapshotTarget = SNAPSHOT_TARGET_TYPES /\ members EReleaseTarget = RELEASE_TARGET_TYPES /\
+  members ERevisionType = REVISION_TYPES /\ members EAuthorityType = METADATA_AUTHORITY_TYPES /\
+  visit_statuses = VISIT_STATUSES /\ dir_entry_types = DIR_ENTRY_TYPES /\
+  content_statuses = CONTENT_STATUSES /\ skipped_content_statuses = SKIPPED_CONTENT_STATUSES /\
+  content_statuses ++ skipped_content_statuses = BASE_CONTENT_STATUSES.
+Proof. exact enums_match_generated. Qed.
+Print Assumptions C12_enums_match_generated.
